@@ -18,7 +18,7 @@ import subprocess
 import common
 import pytrans
 
-ERRS = {"TypeError": "TypeError", "KeyError": "KeyError", "IndexError": "IndexError", "Empty": "Empty", "AttributeError": "AttributeError",
+ERRS = {"OverflowError": "OverflowError", "TypeError": "TypeError", "KeyError": "KeyError", "IndexError": "IndexError", "Empty": "Empty", "AttributeError": "AttributeError",
         "ValueError": "ValueError", "error": "StructError"}
 
 
@@ -235,7 +235,52 @@ def cases_device(rng, n):
     return out
 
 
-GROUPS = {"store": cases_store, "txn": cases_txn, "fsinfo": cases_fsinfo, "message": cases_message, "device": cases_device}
+class _Key(object):
+    pass
+
+
+def cases_keys(rng, n):
+    """_to_bytes and the arithmetic tail of encode_pubkey (executed as extracted by the translator) on odd moduli of several sizes, incl. ones whose rr has
+    leading zero bytes, and on values that do not fit (OverflowError / struct.error)."""
+    import ast
+    import importlib
+    kg = importlib.import_module("adb_shell.auth.keygen")
+    out = []
+    for (v, ln, order) in [(0, 4, "big"), (1, 1, "little"), (255, 1, "big"), (256, 1, "big"), (0x0102, 4, "little"), (0x0102, 4, "big"), (2 ** 2048 - 1, 256, "little"),
+                           (2 ** 2048, 256, "little"), (rng.getrandbits(2040), 256, "little"), (rng.getrandbits(100), 256, "big"), (5, 0, "big"), (0, 0, "little"), (7, 3, "middle")]:
+        out.append(("showM (keygen_to_bytes %s %s %s)" % (lean(v), lean(ln), lean(order)), outcome(kg._to_bytes, v, ln, order), "_to_bytes(%d bits, %d, %r)" % (v.bit_length(), ln, order)))
+    units = dict(pytrans.build_units(common.REPO))
+    fn = units["auth/keygen.py"].fns.get("keygen_encode_pubkey_arith")
+    if fn is None or any(isinstance(st, ast.Global) for st in fn["body"]):
+        return out
+    code = compile(ast.fix_missing_locations(ast.Module(body=[ast.FunctionDef(
+        name="f", args=ast.arguments(posonlyargs=[], args=[ast.arg(arg="key")], kwonlyargs=[], kw_defaults=[], defaults=[]),
+        body=copy.deepcopy(fn["body"]), decorator_list=[])], type_ignores=[])), "<encode_pubkey_arith>", "exec")
+    ns = dict(vars(kg))
+    exec(code, ns)
+    mods = []
+    for bits in (2048, 2048, 2047, 2040, 1024, 64, 33):
+        m = rng.getrandbits(bits) | 1 | (1 << (bits - 1))
+        mods.append(m)
+    # moduli whose rr = 2^4096 mod n has a zero top byte (about 1 in 256): search a few
+    tries = 0
+    while tries < 3000 and sum(1 for m in mods if (pow(2, 4096, m) >> 2040) == 0 and m.bit_length() == 2048) < 1:
+        m = rng.getrandbits(2048) | 1 | (1 << 2047)
+        if (pow(2, 4096, m) >> 2040) == 0:
+            mods.append(m)
+        tries += 1
+    mods += [2 ** 2048 + 1, 4, 2 ** 2047 + 2]          # too large (OverflowError) / even (no inverse: whatever the library returns)
+    for m in mods:
+        for e in (65537, 3, 2 ** 32):
+            k = _Key()
+            k.n, k.e = m, e
+            out.append(("showM (keygen_encode_pubkey_arith %s)" % lean(k), outcome(ns["f"], k), "encode_pubkey arithmetic n=%d bits e=%d" % (m.bit_length(), e)))
+            if len(out) > n + 40:
+                break
+    return out
+
+
+GROUPS = {"keys": cases_keys, "store": cases_store, "txn": cases_txn, "fsinfo": cases_fsinfo, "message": cases_message, "device": cases_device}
 
 
 def run_cases(cases):
